@@ -20,11 +20,10 @@ type statsManager struct {
 
 func (s *statsManager) getClientStats(clientID string) (stats *ClientStats) {
 	if stats = s.clientStats[clientID]; stats == nil {
-		subStats, _ := s.subStatsReader.GetClientStats(clientID)
-
-		stats = &ClientStats{
-			SubscriptionStats: subStats,
-		}
+		// The subscription statistics are read from the subscription store when they are asked for
+		// (GetClientStats). The store must not be called from here: callers hold clientMu, and in overlap
+		// delivery mode the delivery path books into these statistics while it holds the store's read lock.
+		stats = &ClientStats{}
 		s.clientStats[clientID] = stats
 	}
 	return stats
@@ -485,16 +484,17 @@ func (s *statsManager) GetGlobalStats() GlobalStats {
 
 // GetClientStats returns the client statistic information for given client id.
 func (s *statsManager) GetClientStats(clientID string) (ClientStats, bool) {
+	// the store is asked before clientMu is taken (see getClientStats)
+	subStats, _ := s.subStatsReader.GetClientStats(clientID)
 	s.clientMu.Lock()
 	defer s.clientMu.Unlock()
 	if stats := s.clientStats[clientID]; stats == nil {
 		return ClientStats{}, false
 	} else {
-		s, _ := s.subStatsReader.GetClientStats(clientID)
 		return ClientStats{
 			PacketStats:       *stats.PacketStats.copy(),
 			MessageStats:      *stats.MessageStats.copy(),
-			SubscriptionStats: s,
+			SubscriptionStats: subStats,
 		}, true
 	}
 
